@@ -121,6 +121,21 @@ func TestVerifC15(t *testing.T) {
 				files = append(files, all[i])
 			}
 		}
+		// names whose last characters are among those of the ".txt" suffix (Sleepycat, Xnet, eGenix …):
+		// the name is what is left after removing exactly that suffix
+		var edge []string
+		for i, f := range all {
+			b := strings.TrimSuffix(f, ".txt")
+			if !perm[i] && b != f && b != "" && strings.ContainsRune(".tx", rune(b[len(b)-1])) {
+				edge = append(edge, f)
+			}
+		}
+		for n := 0; n < 2 && len(edge) > 0; n++ {
+			i := rr.intn(len(edge))
+			files = append(files, edge[i])
+			edge = append(edge[:i], edge[i+1:]...)
+			k++
+		}
 		if si%3 == 1 {
 			files = append(files, "README.md", "empty.db") // non-.txt entries are skipped
 		}
